@@ -47,7 +47,13 @@ def make_world(lab, script):
                 log.append({"a": "Get", "k": k, "f": f, "r": self.data[k]})
                 return self.data[k]
             log.append({"a": "Get", "k": k, "f": f, "r": "CacheGetFailure"})
-            raise CacheGetFailure(evaluatable, options, self)
+            # the contract: a failed retrieval is reported as CacheGetFailure -- bare, or chained to whatever
+            # went wrong underneath (a lookup miss, an I/O error, a truncated pickle)
+            import pickle
+            cause = [None, KeyError(k), OSError("read error"), pickle.UnpicklingError("truncated"), EOFError()][len(log) % 5]
+            if cause is None:
+                raise CacheGetFailure(evaluatable, options, self)
+            raise CacheGetFailure(evaluatable, options, self) from cause
 
         def set(self, evaluatable, options, value):
             f = self._fault("set")
@@ -62,6 +68,7 @@ def make_world(lab, script):
         return "v%d" % x
 
     ds = lab.dataset(body, cache=ScriptedCache())
+    ds.via = {"direct": ds, "coalesce": lab.Coalesce(ds, lab.Value("FALLBACK"))}
     return ds, log, runs
 
 
@@ -81,7 +88,7 @@ def replay(lab, labels):
         ret = labels[j]
         n0 = len(log)
         try:
-            got = ds({"X": a["k"]})
+            got = ds.via[a.get("via", "direct")]({"X": a["k"]})
         except Exception as e:  # noqa
             return {"step": i, "what": "evaluate raised %s: %s" % (type(e).__name__, e), "expected": ret["v"]}
         steps = log[n0:]
@@ -129,10 +136,11 @@ def record_random(lab, rng, nevals, nfaulty):
     events = []
     for _ in range(nevals):
         k = rng.choice([1, 2])
-        events.append({"a": "Start", "k": k})
+        via = rng.choice(["direct", "direct", "coalesce"])
+        events.append({"a": "Start", "k": k, "via": via})
         n0 = len(log)
         try:
-            v = ds({"X": k})
+            v = ds.via[via]({"X": k})
             events.extend(log[n0:])
             events.append({"a": "Return", "k": k, "v": v if isinstance(v, str) else "PY:" + repr(v), "runs": len(runs)})
         except Exception as e:  # noqa
